@@ -57,9 +57,89 @@ pub struct Case {
     /// probe for the known finding: assert the delivery order even in the excluded region
     #[serde(default)]
     pub probe_known: bool,
+    /// additionally run the fresh-link scenario: (bitrate 1e3 | 1e4 | 1e6, latency index, queueing policy, messages
+    /// offered to the new link, body size index)
+    #[serde(default)]
+    pub fresh_link: Option<(u8, u8, bool, u8, u8)>,
 }
 
 pub struct C07;
+
+/// A module whose handler occupies its existing link and then, in the same event, creates a second link from the
+/// channel handle of the first (`connect(.., Some(gate.channel()))`) and offers a burst to it.
+struct LinkMaker {
+    body: u16,
+    burst: u8,
+}
+
+impl Module for LinkMaker {
+    fn at_sim_start(&mut self, _: usize) {
+        schedule_in(Message::default().kind(1), Duration::from_secs(1));
+    }
+    fn handle_message(&mut self, msg: Message) {
+        if msg.header().kind != 1 {
+            net::log("recv", msg.header().id as i64, 0);
+            return;
+        }
+        send(Message::default().kind(2).id(1).with_content(vec![7u8; self.body as usize]), "out");
+        let out = current().gate("out", 0).expect("gate");
+        let ch = out.channel().expect("channel");
+        net::log("template-busy", ch.is_busy() as i64, 0);
+        let out2 = current().gate("out2", 0).expect("gate");
+        let in2 = current().gate("in2", 0).expect("gate");
+        out2.connect(in2, Some(ch));
+        for j in 0..self.burst as u16 {
+            send(Message::default().kind(2).id(2 + j).with_content(vec![7u8; self.body as usize]), "out2");
+        }
+    }
+}
+
+/// "both direction will have unique instances of the channel, with identical configuration" (Gate::connect): a link
+/// created at run time from the handle of a link that is transmitting has the same metrics and has never transmitted
+/// anything, so it is idle, and the discipline of the property applies to it from its first message on.
+fn fresh_link_scenario(spec: (u8, u8, bool, u8, u8)) -> Result<(), Failure> {
+    let bitrate = [1_000usize, 10_000, 1_000_000][spec.0 as usize % 3];
+    let latency = LATENCIES[spec.1 as usize % LATENCIES.len()] as u128;
+    let queue = spec.2;
+    let burst = spec.3 % 4 + 1;
+    let body = SIZES[spec.4 as usize % SIZES.len()];
+    net::log_clear();
+    let mut sim = Sim::new(());
+    sim.node("fl", LinkMaker { body, burst });
+    let (g_out, g_in) = (sim.gate("fl", "out"), sim.gate("fl", "in"));
+    let _ = sim.gate("fl", "in2");
+    let _ = sim.gate("fl", "out2");
+    let behaviour = if queue { ChannelDropBehaviour::Queue(None) } else { ChannelDropBehaviour::Drop };
+    g_out.connect(g_in, Some(Channel::new(ChannelMetrics::new(bitrate, du(latency), Duration::ZERO, behaviour))));
+    let rt = Builder::seeded(11).quiet().max_itr(1_000).cqueue_options(1028, Duration::from_millis(50)).build(sim.freeze());
+    let res = rt.run();
+    let log = net::log_take();
+    let ok = res.is_ok();
+    drop(res);
+    vensure!(ok, "run-returned-error", "fresh-link scenario: run() returned an error");
+    let tau = tau_ns(64 + body as usize, bitrate);
+    let t0 = 1_000_000_000u128;
+    let mut want: Vec<(i64, u128)> = vec![(1, t0 + tau + latency)];
+    for j in 0..burst as u128 {
+        if queue || j == 0 {
+            want.push((2 + j as i64, t0 + (j + 1) * tau + latency));
+        }
+    }
+    want.sort_by_key(|(id, t)| (*t, *id));
+    let mut got: Vec<(i64, u128)> = log.iter().filter(|r| r.kind == "recv").map(|r| (r.a, r.now)).collect();
+    got.sort_by_key(|(id, t)| (*t, *id));
+    vensure!(
+        got == want,
+        "delivery-of-a-link-created-at-run-time",
+        "a link created inside a handler from the channel handle of a link that is transmitting ({bitrate} bit/s, latency {latency} ns, {}, {} byte bodies, burst of {burst}) \
+         delivered (id, ns) {:?}; a channel that has never transmitted is idle, so the expected deliveries are {:?}",
+        if queue { "Queue(None)" } else { "Drop" },
+        body,
+        got,
+        want
+    );
+    Ok(())
+}
 
 // ------------------------------------------------------------------------------------------
 // real modules
@@ -308,6 +388,9 @@ fn model(r: &Resolved) -> ModelOut {
 }
 
 pub fn run_case(case: &Case) -> Result<(bool, Vec<&'static str>, bool), Failure> {
+    if let Some(spec) = case.fresh_link {
+        fresh_link_scenario(spec)?;
+    }
     let r = resolve(case);
     let m = model(&r);
     // the other direction: same metrics (one ChannelMetrics value), its own channel state, hence its own model run
@@ -376,6 +459,9 @@ pub fn run_case(case: &Case) -> Result<(bool, Vec<&'static str>, bool), Failure>
         if bf.iter().any(|a| br.iter().any(|b| a.0 < b.1 && b.0 < a.1)) {
             labels.push("both-directions-busy-at-once");
         }
+    }
+    if case.fresh_link.is_some() {
+        labels.push("link-created-at-run-time-from-a-busy-channel's-handle");
     }
     Ok((nt_f || nt_r, labels, ex_f || ex_r))
 }
@@ -522,7 +608,7 @@ impl Prop for C07 {
          policy Drop | Queue(None) | Queue(abs) | Queue(fit of the first k messages -1/0/+1)) x traffic: a sender with chained self-timers, each \
          offering a burst of 1..4 (sometimes 21..32) messages (body sizes 0..1500) with gaps 0 | ns | tau*q/4 +-1ns of the previous transmission time, the next \
          timer scheduled before or after the burst (both tie orders); in 40% of the cases the receiving module offers such traffic into the \
-         same connection the other way round (separate channel instance per direction, each direction judged by its own model run). Oracle: an independent channel model on RefSim (idle -> start now, busy for \
+         same connection the other way round (separate channel instance per direction, each direction judged by its own model run); in 15% of the cases a mini scenario in which a handler occupies its link, creates a second link from that link's channel handle in the same event and offers a burst of 1..4 to it (the new link has never transmitted: deliveries at k*tau+latency under Queue, only the first under Drop). Oracle: an independent channel model on RefSim (idle -> start now, busy for \
          tau, Drop / byte-bounded FIFO queue, head starts the instant the channel is idle, zero-length transmissions chain): transmission starts \
          (probe), exactly-once delivery at start+tau+latency (+[0,jitter)), dropped never delivered, nothing stuck at the end, offer order preserved \
          with zero jitter, is_busy()/transmission_finish_time() after every offer, tau within 1 ns of the exact rational. Non-trivial iff an offer \
@@ -566,8 +652,9 @@ impl Prop for C07 {
             policy,
             proptest::collection::vec(offer.clone(), 1..max_offers),
             prop_oneof![3 => Just(Vec::new()), 2 => proptest::collection::vec(offer, 1..max_offers)],
+            proptest::option::weighted(0.15, (0u8..3, 0u8..LATENCIES.len() as u8, any::<bool>(), 0u8..4, 0u8..SIZES.len() as u8)),
         )
-            .prop_map(|(bitrate, latency, jitter, policy, offers, reverse)| Case {
+            .prop_map(|(bitrate, latency, jitter, policy, offers, reverse, fresh_link)| Case {
                 bitrate,
                 latency,
                 jitter,
@@ -575,6 +662,7 @@ impl Prop for C07 {
                 offers,
                 reverse,
                 probe_known: false,
+                fresh_link,
             })
             .boxed()
     }
@@ -601,6 +689,7 @@ impl Prop for C07 {
                 offers: vec![Offer { gap: Gap::Zero, timer_first: false, burst: vec![2, 0] }],
                 reverse: Vec::new(),
                 probe_known: true,
+                fresh_link: None,
             },
         )]
     }
